@@ -22,6 +22,13 @@ let dec_pact (s : string) : pact =
   | ["U"; k] -> PUnset (dec_str k)
   | _ -> failwith "bad pact"
 
+let dec_sstep (s : string) : sstep =
+  match String.split_on_char ',' s with
+  | ["X"; i; fwd] -> SExec (nat_of_int (int_of_string i), bool_of_field fwd)
+  | ["E"; k; v] -> SPut (dec_str k, dec_str v)
+  | ["D"; k] -> SDel (dec_str k)
+  | _ -> failwith "bad sstep"
+
 let handle (f : string array) : string =
   match f.(0) with
   | "prepend" ->
@@ -41,6 +48,15 @@ let handle (f : string array) : string =
                  | Ok e2 -> "ok\t" ^ enc_env e2
                  | Err k -> "err\t" ^ err_name k)
      | Err k -> "err\t" ^ err_name k)
+  | "script" ->
+    (* one table of actions, executed by index any number of times, with changes of the environment in
+       between; the outcome of every step *)
+    let acts = List.map dec_pact (split_sep '|' f.(1)) in
+    let steps = List.map dec_sstep (split_sep '|' f.(2)) in
+    String.concat "\t" ("trace" :: List.map (fun r -> match r with
+                                               | Ok e -> "o" ^ enc_env e
+                                               | Err k -> "e" ^ err_name k)
+                                     (run_script acts steps (dec_env f.(3))))
   | _ -> failwith "unknown op"
 
 let () = main_loop handle
